@@ -145,6 +145,7 @@ def run_C07(ctx, R):
     da.rule_dispatch(ctx, R, E.NR, E.BR, rules={"B-MAP"})
     pure.rule_mapper(ctx, R)
     pure.rule_pure_freeze(ctx, R)
+    pure.rule_pure_self(ctx, R)
     lazy.rule_safe_inv(ctx, R)
     lazy.rule_safe_api(ctx, R)
     lazy.rule_utf8_ctor(ctx, R)
